@@ -53,6 +53,7 @@ from common import LEAN, VERIF
 
 sys.path.insert(0, str(VERIF / "harness" / "lattice"))
 import sim  # noqa: E402
+from props import c01_ext  # noqa: E402  (the shooting move draw for draw: real tis.shoot vs Lean latShoot)
 
 NSIGMA = 6.0
 LENGTH_RULE_MAX_REL = 0.08      # a deviation larger than this is not what the length rule produces
@@ -189,6 +190,7 @@ def analyse(c, r, driver_exe):
                 zw += 1
     out["frac_on_zero_weight"] = zw
     out["cols"] = [sim.column_stats(rows, n, k) for k in range(1, n)]
+    out["lens"] = [sim.length_stats(rows, n, k) for k in range(1, n)]
     out["maxlen_path"] = max((x[1] for x in rows), default=0)
     out["sample_rows"] = [list(x) for x in rows[:2]]
     out["analyse_s"] = round(time.time() - t0, 2)
@@ -301,7 +303,48 @@ def judge(ctx, r, record=True):
                                       "sigma_eff": st["sigma"], "z": z,
                                       "all_estimates": [s and s["p"] for s in r["cols"]],
                                       "all_sigmas": [s and s["sigma"] for s in r["cols"]]}))
+    # second exact reference: reweighted mean path length of every column vs 2 + (k²−1)/3 + k(n−k)
+    # (theorem mean_length_closed_form); same 6 σ_eff rule
+    for k, st in enumerate(r.get("lens") or [], 1):
+        if record:
+            ctx.count(1, branch=f"length:move={c['moves'][k]}")
+        if st is None or st.get("sigma") is None or st["n"] < 40:
+            continue
+        z = (st["m"] - st["m0"]) / st["sigma"]
+        st["z"] = z
+        if abs(z) > NSIGMA:
+            low = st["m"] < st["m0"]
+            sig = f"C01:lattice:mean-length-outside-6sigma:{c['moves'][k]}:" + ("low" if low else "high")
+            what = (f"mean path length of column {k} = {st['m']:.4f} but the exact value is {st['m0']:.4f} "
+                    f"({100 * (st['m'] / st['m0'] - 1):+.2f} %, {z:+.1f} σ, σ_eff = {st['sigma']:.4f}) — {cfg_str(c)}")
+            fails.append((sig, what, {"config": c, "column": k, "mean_length": st["m"], "exact": st["m0"],
+                                      "sigma_eff": st["sigma"], "z": z}))
     return fails
+
+
+def pooled_lengths(results):
+    """pooled relative deviation of the mean path length per move type.  Columns of one configuration share their
+    paths (swaps), so within a configuration they are combined as fully correlated (mean deviation, mean σ —
+    conservative); configurations are independent runs and are combined with inverse-variance weights."""
+    acc = {}
+    for r in results:
+        if not r.get("lens"):
+            continue
+        c = r["config"]
+        per = {}
+        for k, st in enumerate(r["lens"], 1):
+            if st is None or not st.get("sigma") or st["n"] < 40:
+                continue
+            per.setdefault("len-" + c["moves"][k], []).append((st["m"] / st["m0"] - 1.0, st["sigma"] / st["m0"]))
+        for g, l in per.items():
+            dev = sum(d for d, _ in l) / len(l)
+            s_ = sum(x for _, x in l) / len(l)
+            a = acc.setdefault(g, [0.0, 0.0, 0])
+            a[0] += dev / (s_ * s_)
+            a[1] += 1.0 / (s_ * s_)
+            a[2] += len(l)
+    return {g: {"columns": m, "rel_dev": num / den, "sigma": den ** -0.5, "z": num / den * den ** 0.5}
+            for g, (num, den, m) in sorted(acc.items())}
 
 
 def group_of(c, k):
@@ -367,7 +410,9 @@ def run(ctx):
     ctx.exhaustive = False
     ctx.rule = ("one evaluation = one (configuration, interface) estimate compared with its exact value; distinct = "
                 "distinct (number of interfaces, move assignment, cap, workers); every configuration is a full run of "
-                "the real scheduler with one restart; non-trivial = at least 40 data rows in the column")
+                "the real scheduler with one restart; non-trivial = at least 40 data rows in the column.  Extension "
+                "(branch ext-*): one evaluation = one scripted shooting move (real tis.shoot on the plug-in engine vs "
+                "latShoot vs Moves.shoot), distinct = distinct accepted (ensemble, old path, new path)")
     driver_exe = str(LEAN / ".lake/build/bin/drv_c01") if ctx._driver_ok else None
 
     # closed-form reference values from the Lean model (theorem crossing_closed_form / crossing_solution_exists)
@@ -379,6 +424,13 @@ def run(ctx):
                 ctx.disagree({"fn": "hit", "k": k}, str(Fraction(k + 1, k + 2)), out[k])
             if Fraction(out[len(ks) + k]) != Fraction(2 * k + 1, 2):
                 ctx.disagree({"fn": "lam", "k": k}, str(Fraction(2 * k + 1, 2)), out[len(ks) + k])
+        # mean path length closed form (theorem mean_length_closed_form) against the twin used by the statistics
+        ml_cases = [(n_, k_) for n_ in range(2, 8) for k_ in range(1, n_)]
+        got = ctx.driver([f"meanlen {n_} {k_}" for n_, k_ in ml_cases])
+        for (n_, k_), g in zip(ml_cases, got):
+            ctx.count(1, branch="mean-length-closed-form")
+            if g == "bad-op" or Fraction(g) != sim.exact_mean_length(n_, k_):
+                ctx.disagree({"fn": "meanLen", "n": n_, "k": k_}, str(sim.exact_mean_length(n_, k_)), g)
         # the walk's own finite-horizon law (reachBy) against the closed form: 0 ≤ gap ≤ ρ^t (k+2)
         # (theorems walk_law_below_closed_form / walk_law_gap), and the walk simulated by the plug-in's rule
         T = 300
@@ -404,6 +456,21 @@ def run(ctx):
             if g != want:
                 ctx.disagree({"fn": "estimate(unit)", "line": q}, want, g)
 
+    # extension: the real tis.shoot on the real plug-in engine, draw for draw, against Infretis.LatticeMoves.latShoot
+    # (own generator: the configurations below keep the seeds they had before this block existed)
+    import random as _random
+    t_ext = time.time()
+    main_rng = ctx.rng
+    ctx.rng = _random.Random(f"c01-ext-{ctx.seed}")
+    try:
+        c01_ext.run_ext(ctx)
+    finally:
+        ctx.rng = main_rng
+    ctx.extra["ext_wall_s"] = round(time.time() - t_ext, 1)
+    if os.environ.get("C01_EXT_ONLY"):          # development switch: deterministic part only (no simulations)
+        ctx.extra["ext_only"] = True
+        return
+
     cfgs = gen_configs(ctx)
     ctx.extra["configurations"] = [cfg_str(c) for c in cfgs]
     results = run_all(cfgs, driver_exe)
@@ -425,7 +492,10 @@ def run(ctx):
                "cols": [None if s is None or s.get("sigma") is None else
                         {"p": round(s["p"], 5), "exact": round(s["p0"], 5), "sigma_eff": round(s["sigma"], 5),
                          "z": round(s.get("z", 0.0), 2), "band_rel_pct": round(100 * NSIGMA * s["sigma"] / s["p0"], 2),
-                         "rows": s["n"], "kish": round(s["kish"], 1)} for s in r["cols"]]}
+                         "rows": s["n"], "kish": round(s["kish"], 1)} for s in r["cols"]],
+               "mean_length": [None if s is None or s.get("sigma") is None else
+                               {"m": round(s["m"], 4), "exact": round(s["m0"], 4), "sigma_eff": round(s["sigma"], 4),
+                                "z": round(s.get("z", 0.0), 2)} for s in (r.get("lens") or [])]}
         table.append(row)
         ctx.sample({"config": cfg_str(c), "first_rows": r["sample_rows"], "estimates": [s and round(s["p"], 5) for s in r["cols"]],
                     "lean": (r.get("lean") or "")[:160]})
@@ -445,6 +515,15 @@ def run(ctx):
             ctx.fail(sig, what, {"pooled_group": g, "pooled": pl[g], "configs": cfgs,
                                  "estimates": [[s_ and s_["p"] for s_ in r.get("cols", [])] for r in results],
                                  "sigmas": [[s_ and s_["sigma"] for s_ in r.get("cols", [])] for r in results]})
+    pll = pooled_lengths(results)
+    ctx.extra["pooled_mean_length_relative_deviation"] = pll
+    for g, d in pll.items():
+        ctx.count(1, branch="pooled-length-group")
+        if abs(d["z"]) > NSIGMA:
+            ctx.fail(f"C01:lattice:mean-length-outside-6sigma:pooled-{g}:" + ("low" if d["rel_dev"] < 0 else "high"),
+                     f"pooled over {d['columns']} columns ({g}): mean path length off by {100 * d['rel_dev']:+.2f} % ± "
+                     f"{100 * d['sigma']:.2f} % ({d['z']:+.1f} σ)",
+                     {"pooled_group": g, "pooled": d, "configs": cfgs})
     # level is "other", so the framework does not copy the proof bookkeeping: do it here
     ctx.extra.update({
         "obligations": int(ctx.proof.get("obligations", 0)), "discharged": int(ctx.proof.get("discharged", 0)),
@@ -459,7 +538,11 @@ def run(ctx):
         "level=other: a statistical acceptance test cannot be a theorem. Proved in Lean (audited): the exact reference "
         "values (k+1)/(k+2) as the unique solution of the walk's boundary-value recurrence for every k; the estimator's "
         "algebra; detailed balance of the shooting kernel with the length rule as stated (and its failure with the rule "
-        "as coded). Tested here: real scheduler() runs vs the exact values within 6 σ_eff.")
+        "as coded). Extension: the whole shooting move on the lattice as a function of its draws (latShoot) — exact "
+        "characterisation of acceptance for all paths, the length rule as ξ ≤ n_old/n_new, detailed balance and "
+        "finite-family invariance between any two concrete paths, marginals / Rao-Blackwell of the swap step over finite "
+        "sums, the estimator's limit as a ratio of expectations; latShoot is compared draw for draw with the real "
+        "tis.shoot on every run. Tested here: real scheduler() runs vs the exact values within 6 σ_eff.")
     ctx.assumptions += [
         "the solution of the gambler's-ruin recurrence is the walk's hitting probability (optional stopping) — standard, not formalised",
         "process pool replaced by a synchronous runner behind a pickle boundary; completion order random and independent of the job's outcome",
@@ -469,6 +552,10 @@ def run(ctx):
         "unbiased code); bias smaller than 6 σ_eff is not detected (quick ≈ 9–30 % relative per estimate and 3–6 % per "
         "pooled group, thorough ≈ 3–6 % per estimate and ≈ 1–1.5 % per pooled group)",
         "the wire-fencing kernel's reversibility is not proved in the model (only its weights, C10)",
+        "numpy's generator: integers uniform, random() uniform on [0,1), coins fair and independent — the step from the "
+        "set of draws characterised by shoot_accept_iff to the probability kernelPaths is not formalised",
+        "ergodicity of the ∞RETIS chain (hypothesis of estimate_of_stationary_fractions) is assumed, not proved",
+        "scripted ξ are dyadic and chosen so that float division + int() equals the exact floor",
     ]
 
 
@@ -476,6 +563,8 @@ def replay(ctx, obj):
     """re-run the recorded configuration (same seeds) on the current tree"""
     rep = obj.get("replay", {})
     driver_exe = str(LEAN / ".lake/build/bin/drv_c01") if ctx._driver_ok else None
+    if rep.get("ext"):
+        return c01_ext.replay_ext(ctx, rep)
     if "config" in rep:
         cfgs = [rep["config"]]
     elif "configs" in rep:
@@ -498,7 +587,14 @@ def replay(ctx, obj):
         for (sig, what, _r) in fl:
             print("   STILL FAILS:", sig, what)
             bad = 1
-    if "pooled" in rep:
+    if "pooled" in rep and str(rep.get("pooled_group", "")).startswith("len-"):
+        pll = pooled_lengths(results)
+        for g, d in pll.items():
+            print("pooled", g, d)
+            if abs(d["z"]) > NSIGMA:
+                print("   STILL FAILS:", g)
+                bad = 1
+    elif "pooled" in rep:
         pl = pooled(results)
         for g, d in pl.items():
             print("pooled", g, d)
